@@ -73,7 +73,7 @@ def margin_negation(goal, m):
 def _model_json(model):
     out = {}
     for k, v in model.items():
-        if k.startswith("@") or k.startswith("$"):
+        if k.startswith("AT.") or k.startswith("NC."):
             continue
         if isinstance(v, Fraction):
             out[k] = float(v)
@@ -121,11 +121,16 @@ def replay_goal(case: Case, values, goal_name):
 
 def _solve_goal(case, hyps, goal_term):
     # cheap first: with every non-linear monomial and special function opaque (a weakening, so `unsat` is sound)
-    r0 = smt.solve(hyps + [tm.not_(goal_term)], timeout_s=min(case.timeout, 5.0), want_model=False, linearize=True)
+    cross = os.environ.get("VERIF_CROSS") == "1"
+    r0 = smt.solve(hyps + [tm.not_(goal_term)], timeout_s=min(case.timeout, 5.0), want_model=False, linearize=True, keep_smt2=cross)
     if r0.status == "unsat":
+        if cross:
+            smt.cross_check(r0)
         return r0
     r = smt.solve(hyps + [tm.not_(goal_term)], timeout_s=case.timeout, families=case.families,
-                  ack_uf=case.ack_uf, tactic=case.tactic)
+                  ack_uf=case.ack_uf, tactic=case.tactic, keep_smt2=cross)
+    if cross:
+        smt.cross_check(r)
     return r
 
 
@@ -158,6 +163,7 @@ def _run_case(case: Case):
     out = {"case": case.name, "paths": 0, "goals": [], "errors": [], "unreachable_paths": 0,
            "exceptions": [], "encodes": list(case.encodes), "bounds": case.bounds, "notes": []}
     smt.STATS.update({"queries": 0, "time": 0.0, "unsat": 0, "sat": 0, "unknown": 0})
+    smt.CROSS.update({"asked": 0, "agree": 0, "cvc5_unknown": 0, "disagree": []})
     seen_goal_keys = set()
     try:
         with facades.patched():
@@ -255,6 +261,7 @@ def _run_case(case: Case):
         out["errors"].append({"kind": "engine", "msg": repr(e), "trace": traceback.format_exc()[-2500:]})
     out["wall"] = time.time() - t0
     out["solver"] = dict(smt.STATS)
+    out["cross"] = {k: (list(v) if isinstance(v, list) else v) for k, v in smt.CROSS.items()}
     out["handlers_used"] = sorted(st.USED)
     out["constants_recognised"] = sorted(tm.RECOGNISED_LOG)
     return out
@@ -268,7 +275,7 @@ def _handle_sat(case, hyps, g, r):
         fv = set()
         for h in hyps + [g.term]:
             fv |= tm.free_vars(h)
-        inputs = [v for v in fv if v.sort == "R" and not v.val.startswith(("@", "$")) and "!" not in v.val]
+        inputs = [v for v in fv if v.sort == "R" and not v.val.startswith(("AT.", "NC.")) and "!" not in v.val]
         if 0 < len(inputs) <= 40 and r.n_atoms == 0:
             nice = [tm.eq(tm.floor(tm.scale(v, 64)), tm.scale(v, 64)) for v in inputs]
             r0 = smt.solve(hyps + [margin_negation(g.term, case.margin or 1e-3)] + nice, timeout_s=min(case.timeout, 10.0),
@@ -348,6 +355,17 @@ def run_property(prop, modname, tier, meta, jobs=None, only=None):
 
     t0 = time.time()
     seed = int(os.environ.get("VERIF_SEED", "0") or 0)
+    if tier == "thorough":
+        os.environ["VERIF_CROSS"] = "1"  # every decided obligation is also put to cvc5 (same SMT-LIB2 text)
+    # validate the translator first: handler table vs real torch (smoke set for quick, full set for thorough)
+    import subprocess
+
+    cp = subprocess.run([sys.executable, "-W", "ignore", "-m", "conformance.run"] + (["--smoke"] if tier == "quick" else []),
+                        cwd=ROOT, capture_output=True, text=True)
+    try:
+        meta["conformance"] = json.load(open(os.path.join(ROOT, "conformance", "result.json")))
+    except Exception:  # noqa: BLE001
+        meta["conformance"] = {"cases": 0, "failures": ["conformance run produced no result: " + cp.stderr[-300:]]}
     mod = importlib.import_module(modname)
     cases = [c for c in mod.cases() if (tier == "thorough" or c.tier == "quick")]
     if only:
@@ -386,7 +404,13 @@ def summarize(prop, tier, seed, results, meta, wall):
     consts = set()
     encodes = set()
     bounds = []
+    cross = {"asked": 0, "agree": 0, "cvc5_unknown": 0, "disagree": []}
     for r in results:
+        for k, v in (r.get("cross") or {}).items():
+            if isinstance(v, list):
+                cross[k] += ["%s: %s" % (r["case"], x) for x in v]
+            else:
+                cross[k] += v
         paths += r["paths"]
         solver_time += r["solver"].get("time", 0.0)
         queries += r["solver"].get("queries", 0)
@@ -485,10 +509,13 @@ def summarize(prop, tier, seed, results, meta, wall):
             "traces_validated_against_impl": replays,
             "known_findings_hit": [k["what"] for _, k in known_hits],
             "solver": "z3 %s (python API)" % smt.z3.get_version_string(),
+            "cross_solver": dict(cross, solver="cvc5 python API (thorough tier only: the SMT-LIB2 text of every decided obligation)"),
             "solver_time_s": round(solver_time, 3),
             "stubs": meta.get("stubs", []),
             "axioms_used": meta.get("axioms", []),
             "harness_errors": harness_errors,
+            "handler_conformance": {k: v for k, v in meta.get("conformance", {}).items() if k != "failures"},
+            "handler_conformance_failures": meta.get("conformance", {}).get("failures", [])[:10],
         },
         "assumptions": meta.get("assumptions", []),
         "wall_s": round(wall, 3),
@@ -505,6 +532,13 @@ def summarize(prop, tier, seed, results, meta, wall):
         print("UNDECIDED", u)
     for e in harness_errors:
         print("HARNESS-ERROR", e)
+    for d in cross["disagree"]:
+        harness_errors.append("solver disagreement: " + d)
+    if meta.get("conformance", {}).get("failures"):
+        harness_errors.append("handler conformance failed: the model of torch disagrees with real torch; no verdict is reported")
+        for e in meta["conformance"]["failures"][:5]:
+            print("HARNESS-ERROR conformance:", e[:200])
+        return EXIT_HARNESS
     if violations:
         return EXIT_VIOLATION
     if harness_errors:
